@@ -215,6 +215,9 @@ static void run(jv *s, int idx)
 {
   jv *cfg = s->a[0];
   jv *v = j_mkobj(); j_put(v, "i", j_mkint(idx)); j_put(v, "ok", j_mkint(1));
+  { const char *keys_[3] = { "rin", "rout", "rerr" }; jv *o_ = NULL;
+    for (int q = 1; q < s->n && !o_; q++) if (!strcmp(j_str(s->a[q], "fn", ""), "start")) o_ = j_get(s->a[q], "o");
+    for (int q = 0; o_ && q < 3; q++) { jv *rr = j_get(o_, keys_[q]); if (rr && rr->t == J_ARR && rr->n > 3 && rr->a[3]->t == J_STR && strstr(rr->a[3]->s, "fifo")) { j_put(v, "skipped", j_mkint(1)); emit(v); _exit(0); } } }   /* (opening a real FIFO waits for its other side: simulated kernel only) */
   if (j_int(cfg, "cwdlen", 0) > 0 || j_int(cfg, "limit", 32) < 0 || j_int(cfg, "limit", 32) > 1024 /* (the crowded-caller points are replayed on the simulated kernel only) */) { j_put(v, "skipped", j_mkint(1)); emit(v); _exit(0); }
   /* descriptors */
   jv *fds = j_get(cfg, "fds");
